@@ -33,6 +33,7 @@ func binarySessions(r *mon.Run) {
 		}
 	})
 	r.Floor("binary_sessions", int64(n))
+	r.Floor("binary_bighead_refusals", int64(n))
 	var namings []logNaming
 	for i := 0; i < n; i++ {
 		namings = append(namings, binaryNaming(i))
@@ -200,6 +201,35 @@ func driveGens(r *mon.Run, s *crs.Session, rng *rand.Rand, gens int, tag string,
 			hk.RoundTrip(s.Addr, "", []byte("POST /o/"+rid+" HTTP/1.1\r\nHost: x\r\nContent-Length: 3\r\nConnection: close\r\n\r\nabc"), hk.Bound)
 			t.refused = append(t.refused, conn{"output", rid})
 			*script = append(*script, "refused output "+rid)
+		}
+		// a refused attempt whose request head is big (every generation; what
+		// makes it big goes by the generation's number, not by the PRNG): the id,
+		// an extra header line or the User-Agent, 20-300 KiB
+		{
+			bid := fmt.Sprintf("%sbig%d", tag, g)
+			ua, pad := "curl/8.0", ""
+			switch (g + len(tag)) % 4 {
+			case 0:
+				pad = "X-Forwarded-For: " + strings.Repeat("10.1.2.3, ", 1600) + "10.0.0.1\r\n"
+			case 1:
+				bid += "-" + strings.Repeat("0123456789abcdefghijklmnopqrstuvwxyz", 600)
+			case 2:
+				pad = "Cookie: s=" + strings.Repeat("Zm9vYmFy", 7000) + "\r\nProxy-Authorization: Negotiate " + strings.Repeat("YII", 20000) + "\r\n"
+				for x := 0; x < 60; x++ {
+					pad += fmt.Sprintf("X-Trace-%d: %s\r\n", x, strings.Repeat("t", 3000))
+				}
+			default:
+				ua += " (" + strings.Repeat("compatible; ", 3400) + ")"
+			}
+			req := "GET /i/" + bid + " HTTP/1.1\r\nHost: x\r\nUser-Agent: " + ua + "\r\n" + pad + "Connection: close\r\n\r\n"
+			if _, c, err := hk.RoundTrip(s.Addr, "", []byte(req), hk.Bound); err != nil && c == nil {
+				r.Inconclusive("big-head attempt: " + err.Error())
+				return false
+			}
+			t.refused = append(t.refused, conn{"input", bid})
+			*script = append(*script, fmt.Sprintf("refused duplicate input %s with a request head of %d bytes", trunc(bid), len(req)))
+			r.Count("binary_bighead_refusals", 1)
+			r.Count(fmt.Sprintf("binary_bighead_refusals:%dK", len(req)>>10), 1)
 		}
 		// traffic
 		steps := 4 + rng.IntN(12)
